@@ -34,6 +34,8 @@ func checkC05(p *Prog, r *Report) {
 	rulePoolUAR(p, r, "C05")
 	rulePoolOwn(p, r)
 	rulePoolNew(p, r)
+	rulePoolNil(p, r)
+	r.Floor("POOL-NIL", 6)
 	r.Floor("POOL-OWN", 6)
 	r.Floor("INV", 100)
 	r.Floor("LOCK", 1)
